@@ -57,7 +57,8 @@ def check_c16(ctx):
     gen = core.generate(ctx, "DbGen", "GenDb.cfg", num=400 if quick else 6000, depth=12, seed=ctx.seed * 100 + 16, timeout=2400)
     gen3 = core.generate(ctx, "DbGen", "GenDb3.cfg", num=100 if quick else 1500, depth=14, seed=ctx.seed * 100 + 17, timeout=2400)
     deep = core.generate(ctx, "DbGen", "GenDbDeep.cfg", num=60 if quick else 600, depth=12, seed=ctx.seed * 100 + 18, timeout=2400)
-    scn = [{"id": i + 1, "versions": g["versions"], "seed": ctx.seed, "split": i % 3 == 0} for i, g in enumerate(gen + gen3 + deep)]
+    scn = [{"id": i + 1, "versions": g["versions"], "seed": ctx.seed, "split": i % 3 == 0 and not g.get("keeporder"),
+            "keeporder": bool(g.get("keeporder")), "reps": g.get("reps", 1)} for i, g in enumerate(gen + gen3 + deep)]
     events, _ = core.vh_sharded(ctx, "dbscript", scn, timeout=3000, resilient=True)
     prints, nev, results = core.validate(ctx, "DbCatalogTrace", "DbCatalogTrace.cfg", events, chunk=8000)
     by_id = {s["id"]: s for s in scn}
